@@ -15,8 +15,8 @@ MC_Menu == <<
 >>
 (* two more forward programs over the remaining operation families (contraction, data movement, reductions, losses) *)
 MC_MenuMore == <<
-  << <<"op", <<S(1), S(2)>>, "dot">>, <<"op", <<S(1)>>, "reshape">>, <<"op", <<S(2)>>, "broadcast">>, <<"op", <<S(1), S(3)>>, "patch">>, <<"op", <<S(1)>>, "varalong">>, <<"op", <<S(1), S(4)>>, "mul">> >>,
-  << <<"op", <<S(1), S(2)>>, "matmul">>, <<"op", <<S(1)>>, "pow">>, <<"op", <<Lc(2), S(2)>>, "div">>, <<"op", <<S(1)>>, "leakyrelu">>, <<"op", <<S(1), S(3)>>, "ce">>, <<"op", <<S(3)>>, "maxalong">>, <<"op", <<S(4), S(1)>>, "sub">> >>
+  << <<"op", <<S(1), S(2)>>, "dot">>, <<"op", <<S(1)>>, "reshape">>, <<"op", <<S(2)>>, "broadcast">>, <<"op", <<S(1), S(3)>>, "patch">>, <<"op", <<S(1)>>, "varalong">>, <<"op", <<S(1), S(4)>>, "mul">>, <<"grad", S(5)>> >>,
+  << <<"op", <<S(1), S(2)>>, "matmul">>, <<"op", <<S(1)>>, "pow">>, <<"op", <<Lc(2), S(2)>>, "div">>, <<"op", <<S(1)>>, "leakyrelu">>, <<"op", <<S(1), S(3)>>, "ce">>, <<"op", <<S(3)>>, "maxalong">>, <<"grad", S(5)>>, <<"op", <<S(4), S(1)>>, "sub">> >>
 >>
 MC_Menu8 == MC_Menu \o MC_MenuMore
 (* the same plus a program that violates the proviso (back-propagates through the shared parameter) *)
